@@ -33,6 +33,7 @@
 #include <unistd.h>
 #include <errno.h>
 #include <fcntl.h>
+#include <poll.h>
 
 #include "event2/util.h"
 #include "event2/event.h"
@@ -55,7 +56,7 @@ enum { T_PAIR, T_FILTER, T_FILTER2, T_SOCK, T_CONNECT, T_TLS };
 enum { F_NULL, F_IDENT, F_XOR, F_NEEDMORE };
 static int g_type, g_filt, g_opts, g_depth, g_tls;     /* g_tls: 0 none, 1 openssl, 2 mbedtls */
 static const char *g_tname = "pair";
-static int g_final = 1;
+static int g_final = 1, g_big = 70000;
 
 #define PATLEN (1u << 20)
 static unsigned char *pat[2];           /* pat[e][i] = byte i of the stream that arrives AT end e */
@@ -68,6 +69,7 @@ struct endctx {
 	struct bufferevent *bev;              /* application-facing bufferevent */
 	struct bufferevent *stack[MAXSTACK];  /* stack[0] = bev, then its underlying chain */
 	int nstack;
+	void *addr[MAXSTACK];                 /* addresses only (never dereferenced after free): canon() */
 	int fd;                               /* sock: our fd (owned by the bufferevent) */
 	int freed, cleared;
 	int policy;                           /* reader policy, see P_* */
@@ -137,6 +139,18 @@ static int buf_equals(struct evbuffer *buf, const unsigned char *ref, size_t *ba
 	}
 	if (off != len) { *bad_at = off; return 0; }
 	return 1;
+}
+
+/* fd-table signature without opendir (mcx_fd_signature costs ~5 ms under ASan: 32 KiB malloc per opendir) */
+int __real_poll(struct pollfd *, nfds_t, int);
+static uint64_t fd_sig(void)
+{
+	static struct pollfd pf[64];
+	uint64_t h = 0;
+	for (int fd = 0; fd < 64; fd++) { pf[fd].fd = fd; pf[fd].events = 0; pf[fd].revents = 0; }
+	__real_poll(pf, 64, 0);
+	for (int fd = 0; fd < 64; fd++) if (!(pf[fd].revents & POLLNVAL)) h |= 1ull << fd;
+	return h;
 }
 
 static int sock_inq(int fd) { int n = 0; if (fd < 0 || ioctl(fd, FIONREAD, &n) < 0) return 0; return n; }
@@ -485,6 +499,7 @@ static struct bufferevent *mk_filter2(struct bufferevent *under, int kind, struc
 static void setup_end(struct endctx *c)
 {
 	c->bev = c->stack[0];
+	for (int i = 0; i < c->nstack; i++) c->addr[i] = c->stack[i];
 	bufferevent_setcb(c->bev, readcb, writecb, eventcb, c);
 	if (g_type != T_CONNECT) bufferevent_enable(c->bev, EV_READ | EV_WRITE);
 }
@@ -546,7 +561,7 @@ struct op { int kind, end, a, b; };
 static struct op OPS[160]; static int NOPS;
 static void addop(int k, int e, int a, int b) { if (NOPS < 160) { OPS[NOPS].kind = k; OPS[NOPS].end = e; OPS[NOPS].a = a; OPS[NOPS].b = b; NOPS++; } }
 
-static const int wsizes_full[] = { 1, 3, 4096, 70000 };
+static int wsizes_full[] = { 1, 3, 4096, 70000 };
 static const int wsizes_small[] = { 1, 3 };
 /* read watermark settings (low, high): zero, 1, n(=3), n+1, low>high */
 static const int rwm_tab[][2] = { {0, 0}, {0, 1}, {0, 3}, {0, 4}, {2, 0}, {4, 3}, {3, 4}, {1, 1} };
@@ -556,6 +571,7 @@ static const int uwm_tab[] = { 0, 1, 4 };             /* high write mark on the 
 static void build_alphabet(const char *g)
 {
 	NOPS = 0;
+	wsizes_full[3] = g_big;
 	addop(OP_END, 0, 0, 0);
 	addop(OP_LOOP, 0, 0, 0);
 	int nends = g_type == T_CONNECT ? 1 : 2;
@@ -844,6 +860,111 @@ static void final_drain(void)
 	}
 }
 
+
+/* ------------------------------------------------------------------ canonical state for mc_state()
+ * Soundness argument.  Two histories that reach the same canon() value have the same continuations
+ * (same libevent behaviour and same oracle verdicts) because canon() contains
+ *  - for every live bufferevent of both stacks every field the bufferevent layer reads: lengths of
+ *    input/output, freeze bits, evbuffer callback entries' flags and pending add/del counts, enabled,
+ *    suspend flags, all four watermarks, pending deferred flags, connecting flags, refcnt, callbacks
+ *    set or cleared, pair partner link, socket events' list membership and result bits;
+ *  - the event_base's queues of active callbacks in order, each callback mapped to (end, layer, role)
+ *    or to "finalizer of a freed bufferevent" (order decides which deferred callback runs first);
+ *  - every field of the model/oracle state that later verdicts read, offsets taken RELATIVE to the
+ *    stream position (rd_total): the reference pattern has no structure the library could depend on
+ *    (pair/filter/socket code never looks at payload bytes), and content equality of every buffer with
+ *    the pattern has already been verified at this point, so absolute offsets do not matter;
+ *  - not the evbuffer chain layout: the bufferevent layer only uses lengths and whole-buffer moves,
+ *    and evbuffer_read/evbuffer_write_atmost sizes depend on FIONREAD/max_single_* only (<=128 chains);
+ *  - for socket types the kernel queues are hidden state (skb accounting, epoll ready order), therefore
+ *    a socket state is only used for pruning when both kernel queues are empty and at most one
+ *    registered event is ready (then the ready order is irrelevant).
+ * type=connect and TLS types are never pruned.  -P prune=0 disables pruning (used to cross-check). */
+static int g_prune = 1;
+#define H(v) (h = mc_hash_u64(h, (uint64_t)(v)))
+
+static uint64_t canon_evbuffer(uint64_t h, struct evbuffer *b)
+{
+	struct evbuffer_cb_entry *e;
+	H(b->total_len); H(b->freeze_start); H(b->freeze_end); H(b->n_add_for_cb); H(b->n_del_for_cb); H(b->deferred_cbs);
+	LIST_FOREACH(e, &b->callbacks, next) H(e->flags + 0x100);
+	H(0xeb);
+	return h;
+}
+
+static int cb_ident(struct event_callback *cb)
+{
+	for (int e = 0; e < 2; e++) for (int i = 0; i < E[e].nstack; i++) {
+		struct bufferevent *b = E[e].addr[i];
+		if (!b) continue;
+		struct bufferevent_private *bp = BEV_UPCAST(b);
+		int id = (e * MAXSTACK + i) * 4;
+		if (cb == &bp->deferred) return id + 1;
+		if (cb == &b->ev_read.ev_evcallback) return id + 2;
+		if (cb == &b->ev_write.ev_evcallback) return id + 3;
+	}
+	return 99;   /* evbuffer callbacks of freed bufferevents etc.: only their position matters */
+}
+
+static int canon(uint64_t *out)
+{
+	uint64_t h = 0x5eed;
+	if (g_type == T_CONNECT || g_tls) return 0;
+	if (g_type == T_SOCK) {
+		struct pollfd pf[2]; int ready = 0;
+		for (int e = 0; e < 2; e++) {
+			struct endctx *c = &E[e];
+			pf[e].fd = -1; pf[e].events = 0; pf[e].revents = 0;
+			if (c->freed) continue;
+			if (sock_inq(c->fd) > 0) return 0;
+			pf[e].fd = c->fd;
+			if (event_pending(&c->bev->ev_read, EV_READ, NULL)) pf[e].events |= POLLIN;
+			if (event_pending(&c->bev->ev_write, EV_WRITE, NULL)) pf[e].events |= POLLOUT;
+		}
+		__real_poll(pf, 2, 0);
+		for (int e = 0; e < 2; e++) if (pf[e].fd >= 0 && (pf[e].revents & (pf[e].events | POLLHUP | POLLERR))) ready++;
+		if (ready > 1) return 0;
+		/* a freed end may leave unread data / a closed socket behind: peer state is then kernel-hidden */
+		if (E[0].freed || E[1].freed) return 0;
+		H(pf[0].revents); H(pf[1].revents);
+	}
+	for (int e = 0; e < 2; e++) {
+		struct endctx *c = &E[e], *p = peer_of(c);
+		H(0xe0 + e); H(c->freed); H(c->cleared); H(c->policy); H(c->wr_closed); H(c->rd_finished_flush); H(c->conserve_off);
+		H(c->eof_seen); H(c->hw_forced); H(c->uw_forced); H(c->rd_low_floor); H(c->wr_low_ceil); H(c->wr_forgive);
+		H(c->wcb_due); H(c->resume_due); H(c->n_connected); H(c->cbs_before_connected > 0);
+		H(c->n_eof_r > 1 ? 2 : c->n_eof_r); H(c->n_eof_w > 1 ? 2 : c->n_eof_w);
+		H(c->n_err_r > 1 ? 2 : c->n_err_r); H(c->n_err_w > 1 ? 2 : c->n_err_w); H(c->n_err_plain > 1 ? 2 : c->n_err_plain);
+		H(c->prev_in_len); H(c->prev_uout_len); H(c->prev_out_len); H(c->wr_total - c->prev_wr_total);
+		H(c->notified_arrived - c->rd_total); H(c->eof_seen ? c->arrived_at_eof - c->rd_total : 0);
+		H(c->resume_due ? c->resume_arrived - c->rd_total : 0);
+		H(p->wr_closed ? p->closed_at - c->rd_total : 0);
+		H(p->wr_total - c->rd_total);                 /* bytes of the stream not yet consumed (redundant with lengths when conserved) */
+		if (c->freed) continue;
+		for (int i = 0; i < c->nstack; i++) {
+			struct bufferevent *b = c->stack[i]; struct bufferevent_private *bp = BEV_UPCAST(b);
+			H(0xb0 + i);
+			h = canon_evbuffer(h, b->input); h = canon_evbuffer(h, b->output);
+			H(b->enabled); H(bp->read_suspended); H(bp->write_suspended);
+			H(b->wm_read.low); H(b->wm_read.high); H(b->wm_write.low); H(b->wm_write.high);
+			H(bp->readcb_pending); H(bp->writecb_pending); H(bp->eventcb_pending); H(bp->connecting); H(bp->connection_refused);
+			H(bp->refcnt); H(b->readcb != NULL); H(b->writecb != NULL); H(b->errorcb != NULL);
+			H(bp->deferred.evcb_flags);
+			if (BEV_IS_PAIR(b)) H(bufferevent_pair_get_partner(b) != NULL);
+			if (BEV_IS_SOCKET(b)) { H(b->ev_read.ev_evcallback.evcb_flags); H(b->ev_write.ev_evcallback.evcb_flags); H(b->ev_read.ev_res); H(b->ev_write.ev_res); }
+		}
+	}
+	for (int q = 0; q <= base->nactivequeues; q++) {
+		struct evcallback_list *l = q < base->nactivequeues ? &base->activequeues[q] : &base->active_later_queue;
+		struct event_callback *cb;
+		H(0xa0 + q);
+		TAILQ_FOREACH(cb, l, evcb_active_next) { H(cb_ident(cb)); H(cb->evcb_flags); H(cb->evcb_closure); }
+	}
+	*out = h;
+	return 1;
+}
+#undef H
+
 /* ------------------------------------------------------------------ body */
 static void idle(void) { event_base_loopbreak(base); }
 
@@ -857,13 +978,13 @@ static void teardown(void)
 	if (accepted_fd >= 0) close(accepted_fd);
 	accepted_fd = -1;
 	if (mcx_alloc_live() != live0) { KEY(k, "C19/leak/%s", tname()); mc_fail(k, "%ld library allocations still live after teardown (refcount never reached zero?)", mcx_alloc_live() - live0); }
-	if (mcx_fd_signature() != fd0) { KEY(k, "C19/fdleak/%s", tname()); mc_fail(k, "fd table differs from the baseline after teardown"); }
+	if (fd_sig() != fd0) { KEY(k, "C19/fdleak/%s", tname()); mc_fail(k, "fd table differs from the baseline after teardown"); }
 }
 
 static void body(void)
 {
 	vclock_reset(); vclock_idle_hook = idle;
-	live0 = mcx_alloc_live(); fd0 = mcx_fd_signature();
+	live0 = mcx_alloc_live(); fd0 = fd_sig();
 	if (setup() < 0) { teardown(); return; }
 	observe_all("setup");
 	for (int step = 0; step < g_depth; step++) {
@@ -872,10 +993,18 @@ static void body(void)
 		if (!apply(&OPS[i])) break;
 		if (OPS[i].kind != OP_LOOP) observe_all("after-op");
 		if (mc_failed()) break;
+		if (g_prune && step + 1 < g_depth) {
+			uint64_t h;
+			if (canon(&h) && mc_state(h, g_depth - 1 - step)) { MC_COUNT("pruned_histories"); break; }
+		}
 	}
 	if (!mc_failed()) final_drain();
 	teardown();
 }
+
+/* small quarantine: executions are short and allocate < 2 MiB; the 256 MiB default makes every execution
+ * touch fresh pages (3x slower) without adding detection power inside one execution */
+const char *__asan_default_options(void) { return "quarantine_size_mb=8"; }
 
 static void quiet_log(int sev, const char *msg) { (void)sev; (void)msg; }
 
@@ -924,6 +1053,8 @@ int main(int argc, char **argv)
 		else if (!strncmp(a, "prop=", 5)) prop = a + 5;
 		else if (!strncmp(a, "depth=", 6)) g_depth = atoi(a + 6);
 		else if (!strncmp(a, "final=", 6)) g_final = atoi(a + 6);
+		else if (!strncmp(a, "big=", 4)) g_big = atoi(a + 4);
+		else if (!strncmp(a, "prune=", 6)) g_prune = atoi(a + 6);
 	}
 	if (!g_depth) g_depth = 4;
 	static char tn[64];
